@@ -456,6 +456,10 @@ func (c *checker) tierOf(u *unitCfg) tierCfg {
 		if t.MaxSeconds == 0 {
 			t.MaxSeconds = 10 * u.Quick.MaxSeconds
 		}
+		// VERIF_THOROUGH_BUDGET_S caps the per-unit time budget of the thorough tier
+		if v, err := strconv.Atoi(os.Getenv("VERIF_THOROUGH_BUDGET_S")); err == nil && v > 0 && (t.MaxSeconds == 0 || v < t.MaxSeconds) {
+			t.MaxSeconds = v
+		}
 	}
 	if t.Unwind == 0 {
 		t.Unwind = 64
